@@ -8,7 +8,7 @@
     `on_time(new) - old`, …).
   * `int16_t` members (`shuffle`, `echo_volume`, `Event::param`) are `Int` kept in range by
     `wrapS16` at every store; `int` members (`octave`, the `note` argument) are `Int`.  Since the
-    repairs a16b488 / a22a11c the octave arithmetic is done in `unsigned` and converted back:
+    repairs 299434d / bc95701 the octave arithmetic is done in `unsigned` and converted back:
     `add_note` stores `(int)((unsigned)note + (unsigned)octave * 12u)` = `wrapS32 (note + octave*12)`
     and `change_octave` stores `(int)((unsigned)octave + (unsigned)param)` = `wrapS32 (octave + param)`
     (two's complement, 32 bit).  The one `int` addition left is `note += drum_mode` (drum mode):
@@ -139,7 +139,7 @@ def pushEchoNote (t : Track) (note : UInt16) : Track :=
   { t with echoBuffer := (note :: t.echoBuffer).take trackEchoBufferSize }
 
 /-- the `int` value `add_note` stores: `(int)((unsigned)note + (unsigned)octave * 12u)` (wraps
-to 32 bits, fix a16b488) or `note + drum_mode` -/
+to 32 bits, fix 299434d) or `note + drum_mode` -/
 def notePitch (t : Track) (note : Int) : Int :=
   if !t.inDrumMode then wrapS32 (note + t.octave * 12) else note + t.drumMode.toNat
 
@@ -261,7 +261,7 @@ def reverseRest (t : Track) (duration : UInt16 := 0) : Track × RRes :=
   ({ t with revEvents := (rrBack duration t.revEvents).2 }, (rrBack duration t.revEvents).1)
 
 def setOctave (t : Track) (p : Int) : Track := { t with octave := p }
-/-- `Track::change_octave(param)`: `octave = (int)((unsigned)octave + (unsigned)param)` (fix a22a11c) -/
+/-- `Track::change_octave(param)`: `octave = (int)((unsigned)octave + (unsigned)param)` (fix bc95701) -/
 def changeOctave (t : Track) (p : Int) : Track := { t with octave := wrapS32 (t.octave + p) }
 def setDuration (t : Track) (p : UInt16) : Track := { t with defaultDuration := p }
 
